@@ -49,3 +49,30 @@ def campaign_one(rep, pid, tier, seed, kind, n):
     rep.extra.setdefault("real_scheduler_runs", {})[f"{kind}_runs"] = len(traces)
     rep.extra["real_scheduler_runs"][f"{kind}_flags_seen"] = counts
     return counts
+
+
+def campaign_early_removal(rep, pid, tier, seed, n):
+    """Promotion-type Hyperband with speculative early checkpoint removal explicitly requested (both the scored and the
+    baseline callbacks): a paused trial may lose its checkpoint, a running trial never does."""
+    flags = set(M.PROP_FLAGS[pid])
+    traces, meta = [], []
+    variants = [{"max_num_checkpoints": 2, "max_wallclock_time": 1000},
+                {"max_num_checkpoints": 1, "max_wallclock_time": 1000, "approx_steps": 5},
+                {"max_num_checkpoints": 2, "max_wallclock_time": 1000, "baseline": "random"},
+                {"max_num_checkpoints": 1, "max_wallclock_time": 1000, "baseline": "by_level"}]
+    kinds = ["hb_promotion", "hb_pasha", "hb_cost_promotion"]
+    for j in range(n):
+        s = seed * 6007 + 17 * j + 3
+        kind, early = kinds[j % len(kinds)], variants[(j // len(kinds)) % len(variants)]
+        nw = 1 + (j % 4)
+        tr, out = R.run(kind, s, nw, started_budget=8 + (j % 5), delete_checkpoints=True, checkpointing=True,
+                        async_sched=(j % 5 != 4), early=early)
+        tr["id"] = len(traces) + 1
+        traces.append(tr)
+        meta.append({"scheduler": kind, "seed": s, "n_workers": nw, "early_checkpoint_removal_kwargs": early,
+                     "deleted_paused": sum(1 for e in tr["ev"] if e["a"] == "Delete")})
+    counts = T.validate_traces(rep, traces, meta, pid, flags, "real-scheduler:early-removal")
+    rep.replays += len(traces)
+    rep.extra.setdefault("real_scheduler_runs", {})["early_removal_runs"] = len(traces)
+    rep.extra["real_scheduler_runs"]["early_removal_flags_seen"] = counts
+    return counts
